@@ -1,6 +1,7 @@
 import LentilVerif.Lemmas.Tilt
 import LentilVerif.Lemmas.Propagate
 import LentilVerif.Props.C02
+import LentilVerif.Lemmas.FftComplex
 import Mathlib.Tactic.FieldSimp
 import Mathlib.Tactic.Linarith
 import Mathlib.Analysis.Real.Sqrt
@@ -36,13 +37,14 @@ theorem fieldShift_perm_invariant (h0 : (RealLike.ofInt 0 : R) = 0) (ts ts' : Li
     fieldShift ts z wl du0 du1 os ij = fieldShift ts' z wl du0 du1 os ij := by
   unfold fieldShift; rw [shift_perm_invariant h0 ts ts' hp]
 
-/-- **Direction, magnitude and per-axis pixel size.** A tilt of `thx` about x and `thy` about y displaces the image by
+/-- **Direction, magnitude and per-axis pixel size** (over the generated `Gen.tiltShift`, `Gen.fieldShiftOut`,
+`Gen.fieldShiftIJ`: a sign flip, an axis swap or the wrong pixel size in `Tilt`/`Field.shift` breaks this). A tilt of `thx` about x and `thy` about y displaces the image by
 `+z*thx/du0*os` output samples along the rows and `-z*thy/du1*os` along the columns: the row displacement is divided by
 the *row* pixel size `du0` and the column displacement by the *column* pixel size `du1`. -/
 theorem fieldShift_angular (h0 : (RealLike.ofInt 0 : R) = 0) (thx thy z wl du0 du1 : R) (os : Int) :
     fieldShift [TiltEl.angular thx thy] z wl du0 du1 os true =
       (z * thx / du0 * RealLike.ofInt os, -(z * thy / du1 * RealLike.ofInt os)) := by
-  simp only [fieldShift, foldShift, List.foldl_cons, List.foldl_nil, TiltEl.shift, h0, if_true]
+  simp only [fieldShift, foldShift, List.foldl_cons, List.foldl_nil, TiltEl.shift, Gen.tiltShift, Gen.fieldShiftOut, Gen.fieldShiftIJ, h0, if_true]
   refine Prod.ext ?_ ?_ <;> simp only <;> ring
 
 /-- `Wavefront(tilt=[a, b])` and `Wavefront() * Tilt(a, b)` put the same element in the field's tilt list; with further
@@ -125,77 +127,184 @@ theorem tilt_metadata_equiv_opd_ramp (hcast : ∀ n : Int, (RealLike.ofInt n : R
   rw [tilt_ramp_equiv hexp]
   apply dft2_get_congr <;> (simp only [hcast]; push_cast; ring)
 
+/-- **An OPD ramp is the phase ramp of the corresponding displacement.** A plane whose OPD is `opd0` plus the ramp
+`thx·X·dx0 - thy·Y·dx1` (X, Y the global pupil coordinates of the pixel) contributes exactly the field of the plane with
+OPD `opd0`, multiplied by the phase ramp of the displacement `fieldShift [Tilt(thx, thy)]` for the propagation's own
+`alpha = dx·du/(lambda z os)` — sample by sample. -/
+theorem opd_ramp_is_rampField (hcast : ∀ n : Int, (RealLike.ofInt n : R) = (n : R))
+    (hexp : ∀ a b : R, (CxLike.expI (a + b) : K) = CxLike.expI a * CxLike.expI b)
+    (amp : Int → Int → K) (opd0 : Int → Int → R) (thx thy dx0 dx1 du0 du1 wl z : R) (os : Int) (s0 s1 o0 o1 : Int)
+    (hw : wl ≠ 0) (hz : z ≠ 0) (hos : (os : R) ≠ 0) (hdu : du0 ≠ 0 ∧ du1 ≠ 0) (x y : Int) :
+    (phasorField amp (fun x y => opd0 x y + (thx * RealLike.ofInt (cc s0 x + o0) * dx0 - thy * RealLike.ofInt (cc s1 y + o1) * dx1))
+        wl s0 s1 o0 o1).arr.get x y =
+    (rampField (phasorField amp opd0 wl s0 s1 o0 o1) (dftAlpha dx0 dx1 du0 du1 wl z os).1 (dftAlpha dx0 dx1 du0 du1 wl z os).2
+        (fieldShift [TiltEl.angular thx thy] z wl du0 du1 os true).1
+        (fieldShift [TiltEl.angular thx thy] z wl du0 du1 os true).2).arr.get x y := by
+  have h0 : (RealLike.ofInt 0 : R) = 0 := by rw [hcast]; simp
+  obtain ⟨hd0, hd1⟩ := hdu
+  rw [fieldShift_angular h0]
+  simp only [phasorField, rampField, dftAlpha, Gen.dftAlphaCall, Gen.dftAlpha, hcast]
+  rw [← hexp, mul_assoc (amp x y), ← hexp]
+  congr 2
+  field_simp
+  ring
+
+/-- **Tilt plane ≡ Wavefront(tilt) ≡ fit_tilt as metadata.** The three ways of carrying a tilt `(a, b)` as metadata put the
+same value in the field's tilt list up to position — `Wavefront(tilt=[a, b])` first, a `Tilt(a, b)` plane last, or the
+element `fit_tilt` records for coefficients with `t[1] = a`, `t[2] = b` (generated `Gen.fitRecord`) — and the shift handed
+to the propagation is the same for all three. -/
+theorem metadata_representations_agree (h0 : (RealLike.ofInt 0 : R) = 0) (a b : R) (planes : List (TiltEl R)) (t : Int → R)
+    (ht : t 1 = a ∧ t 2 = b) (z wl du0 du1 : R) (os : Int) (ij : Bool) :
+    fieldShift (TiltEl.angular a b :: planes) z wl du0 du1 os ij = fieldShift (planes ++ [TiltEl.angular a b]) z wl du0 du1 os ij ∧
+    fieldShift (planes ++ [fitTiltRecord t]) z wl du0 du1 os ij = fieldShift (planes ++ [TiltEl.angular a b]) z wl du0 du1 os ij := by
+  constructor
+  · exact fieldShift_perm_invariant h0 _ _ (by simpa using (List.perm_append_singleton (TiltEl.angular a b) planes).symm) z wl du0 du1 os ij
+  · have : fitTiltRecord t = TiltEl.angular a b := by
+      simp only [fitTiltRecord, fitRecordXY, Gen.fitRecord, ht.1, ht.2]
+    rw [this]
+
 /-- non-vacuity of `hexp`: the complex exponential `t ↦ exp(i t)` is additive -/
 example : ∀ a b : ℝ, Complex.exp (((a + b : ℝ) : ℂ) * Complex.I) = Complex.exp ((a : ℂ) * Complex.I) * Complex.exp ((b : ℂ) * Complex.I) := by
   intro a b; rw [← Complex.exp_add]; congr 1; push_cast; ring
+
+/-- **The four representations agree, sample for sample, wherever both evaluate (at `K = ℂ`, `R = ℝ`).** A plane with the
+tilt written into its OPD as the ramp `thx·X·dx0 - thy·Y·dx1`, propagated without metadata, and the same plane without
+the ramp carrying the tilt as metadata (Tilt plane, `Wavefront(tilt=…)` or `fit_tilt` record — the same shift by
+`metadata_representations_agree`; any integer/sub-pixel split of it), give the same complex value at every global output
+coordinate lying in both evaluated windows, for `alpha = dx·du/(λ z os)`, any output extents and propagation shapes. -/
+theorem tilt_representations_equiv_complex (amp : Int → Int → ℂ) (opd0 : Int → Int → ℝ) (thx thy dx0 dx1 du0 du1 wl z : ℝ)
+    (os : Int) (s0 s1 o0 o1 : Int) (hw : wl ≠ 0) (hz : z ≠ 0) (hos : os ≠ 0) (hdu : du0 ≠ 0 ∧ du1 ≠ 0)
+    (fix0 fix1 : Int) (sub0 sub1 : ℝ)
+    (hsplit : ((fix0 : ℝ) + sub0, (fix1 : ℝ) + sub1) = fieldShift [TiltEl.angular thx thy] z wl du0 du1 os true)
+    (oe oe' : Extent) (P0 P1 P0' P1' : Int)
+    (hoe : oe.rmin ≤ oe.rmax ∧ oe.cmin ≤ oe.cmax) (hP : 0 < P0 ∧ 0 < P1)
+    (hoe' : oe'.rmin ≤ oe'.rmax ∧ oe'.cmin ≤ oe'.cmax) (hP' : 0 < P0' ∧ 0 < P1') (r c : Int)
+    (hin : (oe.inb r c && (propExtent P0 P1 fix0 fix1).inb r c) = true)
+    (hin' : (oe'.inb r c && (propExtent P0' P1' 0 0).inb r c) = true) :
+    embO (propagateField ⟨phasorField amp opd0 wl s0 s1 o0 o1, fix0, fix1, sub0, sub1⟩
+      (dftAlpha dx0 dx1 du0 du1 wl z os).1 (dftAlpha dx0 dx1 du0 du1 wl z os).2 oe P0 P1) r c =
+    embO (propagateField ⟨phasorField amp (fun x y => opd0 x y + (thx * RealLike.ofInt (cc s0 x + o0) * dx0
+        - thy * RealLike.ofInt (cc s1 y + o1) * dx1)) wl s0 s1 o0 o1, 0, 0, 0, 0⟩
+      (dftAlpha dx0 dx1 du0 du1 wl z os).1 (dftAlpha dx0 dx1 du0 du1 wl z os).2 oe' P0' P1') r c := by
+  have hosR : ((os : ℤ) : ℝ) ≠ 0 := Int.cast_ne_zero.mpr hos
+  rw [tilt_metadata_equiv_opd_ramp (K := ℂ) (R := ℝ) (fun _ => rfl) expI_add_complex _ fix0 fix1 sub0 sub1 _ _ oe oe' P0 P1 P0' P1'
+    hoe hP hoe' hP' r c hin hin']
+  have e1 : (RealLike.ofInt fix0 : ℝ) + sub0 = (fieldShift [TiltEl.angular thx thy] z wl du0 du1 os true).1 := by
+    rw [← hsplit]; rfl
+  have e2 : (RealLike.ofInt fix1 : ℝ) + sub1 = (fieldShift [TiltEl.angular thx thy] z wl du0 du1 os true).2 := by
+    rw [← hsplit]; rfl
+  rw [e1, e2]
+  -- the ramp field and the OPD-ramp plane are the same field
+  have hf : rampField (phasorField amp opd0 wl s0 s1 o0 o1) (dftAlpha dx0 dx1 du0 du1 wl z os).1 (dftAlpha dx0 dx1 du0 du1 wl z os).2
+      (fieldShift [TiltEl.angular thx thy] z wl du0 du1 os true).1 (fieldShift [TiltEl.angular thx thy] z wl du0 du1 os true).2 =
+      phasorField amp (fun x y => opd0 x y + (thx * RealLike.ofInt (cc s0 x + o0) * dx0 - thy * RealLike.ofInt (cc s1 y + o1) * dx1))
+        wl s0 s1 o0 o1 := by
+    have hget : ∀ x y, _ = _ := fun x y => (opd_ramp_is_rampField (K := ℂ) (R := ℝ) (fun _ => rfl) expI_add_complex amp opd0 thx thy dx0 dx1 du0 du1
+      wl z os s0 s1 o0 o1 hw hz hosR hdu x y).symm
+    unfold rampField phasorField at hget ⊢
+    simp only at hget ⊢
+    congr 2
+    funext x y
+    exact hget x y
+  rw [hf]
 end ramp
 
-/-! ## fit_tilt removes exactly the least-squares tip and tilt, not the piston, and records what it removed -/
+/-! ## fit_tilt removes exactly the least-squares tip and tilt, not the piston, and records what it removed
+
+The wiring is *generated* from `Plane.ptt_vector` / `Plane.fit_tilt` (`Gen.pttRow`, `Gen.fitSubRows`, `Gen.fitSubCoefs`,
+`Gen.fitRecord`, per-segment variants, `Gen.tiltStride`): subtracting the piston row, swapping the recorded angles, or a
+different basis row changes these definitions and the theorems below stop checking. `tiltRamp` is the specification:
+the OPD ramp `(thx·r·px0 - thy·c·px1)·mask` that `ramp_is_opd_ramp`/`fieldShift_angular` identify with `Tilt(x=thx, y=thy)`. -/
 section fit
 set_option linter.unusedSectionVars false
 variable {R : Type} [Field R] [RealLike R]
 local instance : RealLike ℚ := ⟨fun n => (n : ℚ), 6, id, fun x => |x|⟩
 
-/-- **OPD plus recorded tilt is unchanged**, for ANY coefficients `t` the solver returns: the piston column is never
-subtracted, and what is subtracted is exactly the ramp of the recorded `Tilt(x=t1, y=t2)` on the mask. -/
-theorem fit_tilt_total_unchanged (s0 s1 : Int) (px0 px1 : R) (mask opd : Int → Int → R) (t1 t2 : R) (i j : Int) :
-    fitTiltOpd s0 s1 px0 px1 mask opd t1 t2 i j + tiltRamp s0 s1 px0 px1 mask t1 t2 i j = opd i j := by
-  unfold fitTiltOpd; ring
+/-- **OPD plus the ramp of the recorded tilt is unchanged**, for ANY coefficient vector `t` the solver returns: what the
+code subtracts (rows `Gen.fitSubRows` of the generated basis times `t[Gen.fitSubCoefs]`) is exactly the OPD ramp of the
+element it records (`Tilt(x=t[Gen.fitRecord.1], y=t[Gen.fitRecord.2])`); the piston row is not among the subtracted rows. -/
+theorem fit_tilt_total_unchanged (h1 : (RealLike.ofInt 1 : R) = 1) (s0 s1 : Int) (px0 px1 : R) (mask opd : Int → Int → R)
+    (t : Int → R) (i j : Int) :
+    fitTiltOpd s0 s1 px0 px1 mask opd t i j + tiltRamp s0 s1 px0 px1 mask (fitRecordXY t).1 (fitRecordXY t).2 i j = opd i j := by
+  unfold fitTiltOpd; rw [fitSubtract_eq h1]
+  simp only [tiltRamp, fitRecordXY, Gen.fitRecord]; ring
 
-/-- the ramp removed is `(t1 * r * px0 - t2 * c * px1) * mask` with `(r, c)` = index minus `floor(n/2)`: the OPD ramp
-of `ramp_is_opd_ramp` for `thx = t1`, `thy = t2` -/
-theorem tiltRamp_eq (hcast : ∀ n : Int, (RealLike.ofInt n : R) = (n : R)) (s0 s1 : Int) (px0 px1 : R)
-    (mask : Int → Int → R) (t1 t2 : R) (i j : Int) :
-    tiltRamp s0 s1 px0 px1 mask t1 t2 i j = (t1 * ((i - s0 / 2 : Int) : R) * px0 - t2 * ((j - s1 / 2 : Int) : R) * px1) * mask i j := by
-  simp only [tiltRamp, pttBasis, cc, hcast]; ring
+/-- the generated rows subtracted for a segment lie inside that segment's own block of the stacked basis, and skip its
+piston row; the stride handed to `multiply` starts at the segment index and steps by the number of segments -/
+theorem fit_rows_wiring (seg n size : Int) :
+    (Gen.pttSegRows seg).1 < (Gen.fitSegSubRows seg).1 ∧ (Gen.fitSegSubRows seg).2 ≤ (Gen.pttSegRows seg).2 ∧
+    Gen.fitSegLstsqRows seg = Gen.pttSegRows seg ∧ 0 < Gen.fitSubRows.1 ∧ Gen.tiltStride n size = (n, size) := by
+  refine ⟨by simp only [Gen.pttSegRows, Gen.fitSegSubRows]; omega, by simp only [Gen.pttSegRows, Gen.fitSegSubRows]; omega,
+    rfl, by decide, rfl⟩
 
-/-- segmented planes: on a pixel of segment `s` (binary, pairwise disjoint masks) the new OPD is the old one minus the
-ramp of that segment's own recorded tilt -/
-theorem fit_tilt_total_unchanged_seg (s0 s1 : Int) (px0 px1 : R) (pre post : List ((Int → Int → R) × R × R))
-    (s : (Int → Int → R) × R × R) (opd : Int → Int → R) (i j : Int)
-    (hs : s.1 i j = 1) (hothers : ∀ s' ∈ pre ++ post, s'.1 i j = 0) :
-    fitTiltOpdSeg s0 s1 px0 px1 (pre ++ s :: post) opd i j + tiltRamp s0 s1 px0 px1 s.1 s.2.1 s.2.2 i j = opd i j := by
+/-- segmented planes: on a pixel of segment `s` (binary, pairwise disjoint masks) the new OPD plus the ramp of that
+segment's own recorded tilt is the old OPD -/
+theorem fit_tilt_total_unchanged_seg (h1 : (RealLike.ofInt 1 : R) = 1) (s0 s1 : Int) (px0 px1 : R)
+    (pre post : List (Int × (Int → Int → R) × (Int → R))) (s : Int × (Int → Int → R) × (Int → R)) (opd : Int → Int → R) (i j : Int)
+    (hs : s.2.1 i j = 1) (hothers : ∀ s' ∈ pre ++ post, s'.2.1 i j = 0) :
+    fitTiltOpdSeg s0 s1 px0 px1 (pre ++ s :: post) opd i j +
+      tiltRamp s0 s1 px0 px1 s.2.1 (fitSegRecordXY s.2.2).1 (fitSegRecordXY s.2.2).2 i j = opd i j := by
   unfold fitTiltOpdSeg
-  rw [sumList_append, sumList_cons,
-    sumList_zero pre _ (fun x hx => by rw [hothers x (List.mem_append_left _ hx)]; ring),
-    sumList_zero post _ (fun x hx => by rw [hothers x (List.mem_append_right _ hx)]; ring), hs]
-  ring
+  rw [sumListB_append, sumListB_cons,
+    sumListB_zero pre _ (fun x hx => by rw [hothers x (List.mem_append_left _ hx)]; ring),
+    sumListB_zero post _ (fun x hx => by rw [hothers x (List.mem_append_right _ hx)]; ring), fitSegSubtract_eq h1, hs]
+  simp only [tiltRamp, fitSegRecordXY, Gen.fitSegRecord, hs]; ring
 
-/-- **Exactly the least-squares tip and tilt, and not the piston.** If `(t0, t1, t2)` satisfies the normal equations of
-the masked basis `[B0, B1, B2]` for the OPD (what `lstsq` returns — contract), then for the OPD left by `fit_tilt` the
-coefficients `(t0, 0, 0)` satisfy them: the remaining OPD has zero least-squares tip/tilt and the same piston. -/
-theorem fit_tilt_is_least_squares {ι : Type} (pix : Finset ι) (B0 B1 B2 opd : ι → R) (t0 t1 t2 : R)
-    (hN : ∀ B ∈ [B0, B1, B2], ∑ p ∈ pix, B p * (opd p - (t0 * B0 p + t1 * B1 p + t2 * B2 p)) = 0) :
-    ∀ B ∈ [B0, B1, B2], ∑ p ∈ pix, B p * ((opd p - (B1 p * t1 + B2 p * t2)) - (t0 * B0 p + 0 * B1 p + 0 * B2 p)) = 0 := by
-  intro B hB
-  calc ∑ p ∈ pix, B p * ((opd p - (B1 p * t1 + B2 p * t2)) - (t0 * B0 p + 0 * B1 p + 0 * B2 p))
-      = ∑ p ∈ pix, B p * (opd p - (t0 * B0 p + t1 * B1 p + t2 * B2 p)) := Finset.sum_congr rfl (fun p _ => by ring)
-    _ = 0 := hN B hB
+/-- **Exactly the least-squares tip and tilt, and not the piston.** Let `B k` be the model's masked basis rows
+(`pttBasis`, generated) over the pixel set `pix`. If `t` satisfies the normal equations for the OPD — the contract of
+`np.linalg.lstsq`, listed under TRUSTED — and the Gram matrix of the basis is non-singular (the segment has three
+non-collinear pixels), then EVERY least-squares fit `t'` of the OPD left by `fit_tilt` has zero tip and tilt and the
+original piston: `t' = (t 0, 0, 0)`. -/
+theorem fit_tilt_is_least_squares (h1 : (RealLike.ofInt 1 : R) = 1) (pix : Finset (Int × Int)) (s0 s1 : Int) (px0 px1 : R)
+    (mask opd : Int → Int → R) (t t' : Int → R)
+    (hN : ∀ k ∈ [(0 : Int), 1, 2], ∑ p ∈ pix, pttBasis s0 s1 px0 px1 mask k p.1 p.2 *
+        (opd p.1 p.2 - (t 0 * pttBasis s0 s1 px0 px1 mask 0 p.1 p.2 + t 1 * pttBasis s0 s1 px0 px1 mask 1 p.1 p.2
+          + t 2 * pttBasis s0 s1 px0 px1 mask 2 p.1 p.2)) = 0)
+    (hinj : ∀ d0 d1 d2 : R, (∀ k ∈ [(0 : Int), 1, 2], ∑ p ∈ pix, pttBasis s0 s1 px0 px1 mask k p.1 p.2 *
+        (d0 * pttBasis s0 s1 px0 px1 mask 0 p.1 p.2 + d1 * pttBasis s0 s1 px0 px1 mask 1 p.1 p.2
+          + d2 * pttBasis s0 s1 px0 px1 mask 2 p.1 p.2) = 0) → d0 = 0 ∧ d1 = 0 ∧ d2 = 0)
+    (hN' : ∀ k ∈ [(0 : Int), 1, 2], ∑ p ∈ pix, pttBasis s0 s1 px0 px1 mask k p.1 p.2 *
+        (fitTiltOpd s0 s1 px0 px1 mask opd t p.1 p.2 - (t' 0 * pttBasis s0 s1 px0 px1 mask 0 p.1 p.2
+          + t' 1 * pttBasis s0 s1 px0 px1 mask 1 p.1 p.2 + t' 2 * pttBasis s0 s1 px0 px1 mask 2 p.1 p.2)) = 0) :
+    t' 0 = t 0 ∧ t' 1 = 0 ∧ t' 2 = 0 := by
+  have hafter : ∀ i j, fitTiltOpd s0 s1 px0 px1 mask opd t i j =
+      opd i j - (pttBasis s0 s1 px0 px1 mask 1 i j * t 1 + pttBasis s0 s1 px0 px1 mask 2 i j * t 2) := by
+    intro i j; unfold fitTiltOpd; rw [fitSubtract_eq h1]
+    simp only [pttBasis, Gen.pttRow, tripleGet]; norm_num; ring
+  have key := hinj (t' 0 - t 0) (t' 1) (t' 2) (by
+    intro k hk
+    have a := hN k hk; have b := hN' k hk
+    rw [← sub_eq_zero_of_eq (a.trans b.symm), ← Finset.sum_sub_distrib]
+    apply Finset.sum_congr rfl; intro p _
+    rw [hafter]; ring)
+  exact ⟨sub_eq_zero.mp key.1, key.2.1, key.2.2⟩
 
-/-- **History.** After any sequence of OPD updates and `fit_tilt` calls, the current OPD plus the ramp of the *sum of
-all recorded tilts* equals the initial OPD plus the sum of the updates — nothing is lost by a second fit, provided
-`multiply` hands every recorded tilt to the field (it does: `self.tilt[n::self.size]`, checked by the correspondence). -/
-theorem fit_tilt_history (s0 s1 : Int) (px0 px1 : R) (mask : Int → Int → R) (ops : List (Op R))
+/-- **History.** After any sequence of OPD updates and `fit_tilt` calls (whatever coefficients the solver returned), the
+current OPD plus the ramp of the *sum of all recorded tilts* equals the initial OPD plus the sum of the updates — nothing
+is lost by a second fit, provided `multiply` hands every recorded tilt of the segment to its field (`Gen.tiltStride`:
+`self.tilt[n::self.size]`, observed per field by the correspondence). -/
+theorem fit_tilt_history (h1 : (RealLike.ofInt 1 : R) = 1) (s0 s1 : Int) (px0 px1 : R) (mask : Int → Int → R) (ops : List (TiltOp R))
     (opd : Int → Int → R) (ts : List (R × R)) (i j : Int) :
-    (run s0 s1 px0 px1 mask ops (opd, ts)).1 i j +
-      tiltRamp s0 s1 px0 px1 mask ((run s0 s1 px0 px1 mask ops (opd, ts)).2.map Prod.fst).sum
-        ((run s0 s1 px0 px1 mask ops (opd, ts)).2.map Prod.snd).sum i j =
-    opd i j + tiltRamp s0 s1 px0 px1 mask (ts.map Prod.fst).sum (ts.map Prod.snd).sum i j + updatesSum ops i j := by
+    (tiltRun s0 s1 px0 px1 mask ops (opd, ts)).1 i j +
+      tiltRamp s0 s1 px0 px1 mask ((tiltRun s0 s1 px0 px1 mask ops (opd, ts)).2.map Prod.fst).sum
+        ((tiltRun s0 s1 px0 px1 mask ops (opd, ts)).2.map Prod.snd).sum i j =
+    opd i j + tiltRamp s0 s1 px0 px1 mask (ts.map Prod.fst).sum (ts.map Prod.snd).sum i j + tiltUpdatesSum ops i j := by
   induction ops generalizing opd ts with
-  | nil => simp [run, updatesSum]
+  | nil => simp [tiltRun, tiltUpdatesSum]
   | cons op ops ih =>
     cases op with
-    | update d => simp only [run, updatesSum]; rw [ih]; ring
-    | fit t1 t2 =>
-      simp only [run, updatesSum]; rw [ih]
-      simp only [List.map_append, List.sum_append, List.map_cons, List.map_nil, List.sum_cons, List.sum_nil, fitTiltOpd, tiltRamp]
-      ring
+    | update d => simp only [tiltRun, tiltUpdatesSum]; rw [ih]; ring
+    | fit t =>
+      simp only [tiltRun, tiltUpdatesSum]; rw [ih]
+      have hstep := fit_tilt_total_unchanged h1 s0 s1 px0 px1 mask opd t i j
+      simp only [List.map_append, List.sum_append, List.map_cons, List.map_nil, List.sum_cons, List.sum_nil, tiltRamp] at hstep ⊢
+      linear_combination hstep
 
 /-- non-vacuity: a 3x3 plane, full mask, an update between two fits with arbitrary coefficients -/
-example (i j : Int) := fit_tilt_history (R := ℚ) 3 3 (1/2) (1/4) (fun _ _ => 1)
-  [Op.fit 3 (-2), Op.update (fun i j => i + 2 * j), Op.fit (1/3) 5] (fun i j => i * j) [] i j
-example : (([0, 1] : List Nat).map fun k => pttBasis (R := ℚ) 3 4 (1/2) (1/4) (fun _ _ => 1) 2 0 k) = [1/2, 1/4] := by
-  simp [pttBasis, cc, RealLike.ofInt]; norm_num
+example (i j : Int) := fit_tilt_history (R := ℚ) rfl 3 3 (1/2) (1/4) (fun _ _ => 1)
+  [TiltOp.fit (fun k => k + 3), TiltOp.update (fun i j => i + 2 * j), TiltOp.fit (fun k => 1 / 3 - k)] (fun i j => i * j) [] i j
+example : fitSubtract (R := ℚ) 3 4 (1/2) (1/4) (fun _ _ => 1) (fun k => k) 0 1 = -(1/2) + 1/2 := by
+  rw [fitSubtract_eq rfl]; simp [cc, RealLike.ofInt]; norm_num
 end fit
 
 /-! ## A first-order dispersive element displaces along its trace by the arc length its dispersion maps to the wavelength -/
